@@ -16,16 +16,18 @@ SReg     == IsEvent("Reg")     /\ Reg(E.h, E.j, E.k, E.m)     /\ Bind
 SCheckIn == IsEvent("CheckIn") /\ CheckIn(E.h)                 /\ Bind
 SRefresh == IsEvent("Refresh") /\ Refresh(E.h, E.j, E.k, E.m) /\ Bind
 SKill    == IsEvent("Kill")    /\ Kill(E.h, E.k)             /\ Bind
+SRestart == IsEvent("Restart") /\ Restart                    /\ Bind
 
 (* monitor: table from the log; `sent` from the calls alone *)
 FirstValidReg == E.ev = "Reg" /\ E.h = E.j /\ sent[E.h] = NoneRec
 ValidRefresh == E.ev = "Refresh" /\ E.h = E.j /\ sent[E.h] # NoneRec
 MonStep == /\ l <= Len(TraceLog) /\ E.ev # "Reset" /\ l' = l + 1
            /\ sess' = E.st.sess
-           /\ sent' = IF FirstValidReg \/ ValidRefresh THEN [sent EXCEPT ![E.h] = [key |-> E.k, meta |-> E.m]] ELSE sent
+           /\ sent' = IF FirstValidReg \/ ValidRefresh THEN [sent EXCEPT ![E.h] = [key |-> E.k, meta |-> E.m]]
+                      ELSE IF E.ev = "Restart" THEN [i \in Ids |-> IF Alive(i) THEN sent[i] ELSE NoneRec] ELSE sent
            /\ last' = [op |-> E.ev, h |-> E.h, reply |-> E.res.reply]
            /\ UNCHANGED hist
-TraceNext == Reset \/ (Strict /\ (SReg \/ SCheckIn \/ SRefresh \/ SKill)) \/ (~Strict /\ MonStep)
+TraceNext == Reset \/ (Strict /\ (SReg \/ SCheckIn \/ SRefresh \/ SKill \/ SRestart)) \/ (~Strict /\ MonStep)
 TraceSpec == TraceInit /\ [][TraceNext]_tvars
 TraceAccepted == TLCGet("stats").diameter - 1 = Len(TraceLog)
 (* the id of an existing session never changes (Reset starts a new server) *)
